@@ -28,15 +28,25 @@ def gen_network(rng, max_units, force=None):
     dim = n
     units = 0
     acts = ["none", "relu", "relu", "relu", "leaky", "hardtanh", "hardsigmoid"]
+    if force == "leaky":
+        # the same neuron index activated by leaky ReLUs of different slopes in several layers of equal width
+        acts = ["leaky", "leaky", "relu"]
+        nlin = rng.choice([2, 3])
+    if force == "bare":
+        # a head directly on one affine layer: no activation, no decision above the head
+        nlin, acts = 1, ["none"]
+    w_fixed = rng.choice([1, 2, 2, 3])
     for li in range(nlin):
-        w = rng.choice([1, 2, 2, 3])
+        w = w_fixed if force == "leaky" else rng.choice([2, 3] if force == "bare" else [1, 2, 2, 3])
         M = gen.mat(rng, w, dim, pzero=0.15)
         c = gen.vec(rng, w)
         s = rng.random()
-        if force == "dup" or s < 0.1:
+        if force == "dup" or s < 0.1 or (force == "bare" and s < 0.6):
             if w >= 2:
                 M[1] = list(M[0])
                 c[1] = c[0]          # coincident breakpoints / argmax ties on whole regions
+                if rng.random() < 0.5:
+                    c[1] = c[0] + rng.choice([FR(1), FR(-1), FR(1, 2), FR(-3)])      # parallel: an input-independent comparison
         elif s < 0.18:
             M[0] = [FR(0)] * dim     # zero row: constant neuron
         elif s < 0.25 and w >= 2:
@@ -44,7 +54,7 @@ def gen_network(rng, max_units, force=None):
             c[1] = -c[0]
         layers.append({"t": "linear", "M": M, "c": c})
         dim = w
-        if li == nlin - 1 and rng.random() < 0.4:
+        if li == nlin - 1 and (rng.random() < 0.4 or force == "bare"):
             break
         for r in range(dim):
             if units >= max_units:
@@ -57,7 +67,7 @@ def gen_network(rng, max_units, force=None):
                 layers.append({"t": "leaky", "row": r, "alpha": rng.choice([FR(0), FR(1, 4), FR(1, 2), FR(2), FR(-1)])})
             else:
                 layers.append({"t": a, "row": r})
-    head = rng.choice(["none", "none", "argmax", "classchar"])
+    head = rng.choice(["argmax", "classchar"] if force == "bare" else ["none", "none", "argmax", "classchar"])
     if dim >= 2 and head == "argmax":
         layers.append({"t": "argmax"})
     elif dim >= 2 and head == "classchar":
@@ -97,7 +107,7 @@ def make_cases(chk):
     quick = chk.tier == "quick"
     cases = []
     for i in range(160 if quick else 3000):
-        n, layers = gen_network(rng, 6 if quick else 9, force="dup" if i % 11 == 0 else None)
+        n, layers = gen_network(rng, 6 if quick else 9, force={0: "dup", 4: "leaky", 8: "bare"}.get(i % 11))
         kind, pre = gen_pre(rng, n)
         steps = [{"op": "layers", "name": "L", "layers": netref.layers_to_driver(layers)}]
         if pre is not None:
